@@ -290,7 +290,23 @@ impl<'tcx> Cx<'tcx> {
                         v.push(("int", esc(&bits.to_string())));
                     }
                 }
-                let text = with_no_trimmed_paths!(format!("{}", c.const_));
+                let mut text = with_no_trimmed_paths!(format!("{}", c.const_));
+                // a named integer constant (`const MAX: u32 = ..`) is presented as the literal it evaluates to: introducing a
+                // name for a literal changes nothing for the rules.  (bool constants such as CHECKS stay symbolic.)
+                if let Const::Unevaluated(uv, _) = c.const_ {
+                    if uv.promoted.is_none() && (ty.is_integral() || ty.is_char()) && c.const_.try_to_scalar_int().is_none() {
+                        let generic = self.tcx.generics_of(uv.def).count() > 0;
+                        if !generic {
+                            if let Some(si) = c.const_.try_eval_scalar_int(self.tcx, ty::TypingEnv::post_analysis(self.tcx, owner)) {
+                                let sz = si.size();
+                                let bits = si.to_bits(sz);
+                                v.push(("int", esc(&bits.to_string())));
+                                v.push(("named_const", esc(&text)));
+                                text = format!("{}_{}", bits, self.tys(ty));
+                            }
+                        }
+                    }
+                }
                 let text = if text.len() > 300 { format!("{}…", &text.chars().take(300).collect::<String>()) } else { text };
                 v.push(("text", esc(&text)));
                 obj(&v)
